@@ -404,6 +404,9 @@ func runC06(t *vs.Tape, cfg map[string]string) (res vs.Result) {
 
 	g := &genCtx{swarm: swarmWeights(t, false), quick: cfg["tier"] != "thorough"}
 	nOps := 1 + t.Weighted("nops", 1, 2, 3, 4, 4, 3, 2, 2, 1, 1, 1, 1)*5 + t.Intn(5, "nops.lo")
+	if cfg["tier"] == "thorough" && t.Chance("nops.long", 1, 4) {
+		nOps *= 3
+	}
 	m := newStoreModel()
 	s, err := openStore(m)
 	if err != nil {
